@@ -88,11 +88,15 @@ def run(tier):
     """returns (coverage-dict, violations)"""
     if shutil.which("strace") is None:
         return {"strace_pass": "strace not available"}, []
+    probe = subprocess.run(["strace", "-o", "/dev/null", "true"], stdout=subprocess.DEVNULL, stderr=subprocess.DEVNULL)
+    if probe.returncode != 0:
+        return {"strace_pass": "strace cannot trace in this environment (ptrace not permitted?): syscall-level history not explored, stdio-level history stands"}, []
     exe = c.build_exe("Wencry", [], defs=[], sanitize="none", libs=[], with_sched=False, main_cpp=True)
     root = os.path.join("/dev/shm" if os.path.isdir("/dev/shm") else c.BUILD, "wencry-c13s-%d" % os.getpid())
     shutil.rmtree(root, ignore_errors=True)
     os.makedirs(root)
     viol = []
+    untraced = []
     nstates = nhist = nruns = 0
     samples = []
     try:
@@ -143,8 +147,8 @@ def run(tier):
 
         with cf.ThreadPoolExecutor(max_workers=c.NCPU) as ex:
             for h, wl, ns, runs, bad in ex.map(one, hists):
-                if wl is None:
-                    viol.append({"key": "strace-run-failed", "desc": "could not trace history %s" % (h,), "replay": {"strace_history": list(h)}})
+                if wl is None:  # the traced encryption did not exit 0: an environment problem or C01/C17's subject, not a crash-consistency verdict
+                    untraced.append(list(h))
                     continue
                 nhist += 1
                 nstates += ns
@@ -155,5 +159,5 @@ def run(tier):
                     viol.append({"key": key, "desc": desc, "replay": {"strace_history": list(h)}})
     finally:
         shutil.rmtree(root, ignore_errors=True)
-    return {"strace_histories": nhist, "strace_crash_states": nstates, "strace_verify_decrypt_runs": nruns, "strace_samples": samples,
+    return {"strace_histories_not_traced": untraced, "strace_histories": nhist, "strace_crash_states": nstates, "strace_verify_decrypt_runs": nruns, "strace_samples": samples,
             "strace_note": "system-call write history of the real binary (production buffer sizes, T=4), every write prefix x byte prefix given to the real Wencry -v / -d"}, viol
